@@ -7,3 +7,11 @@ pub(crate) mod c09 {
     use super::super::*;
     include!(concat!(env!("LIBP2P_VERIF"), "/units/C09/ranker.rs"));
 }
+
+/// C09 on the sequence model of Multiaddr (function texts extracted each run)
+#[allow(dead_code, unused_imports, unused_variables)]
+pub(crate) mod c09m {
+    use super::super::*;
+    use super::c09::{private4, private6, special4, special6};
+    include!(concat!(env!("LIBP2P_VERIF"), "/units/C09/model.rs"));
+}
